@@ -1,6 +1,7 @@
 import Carquet.Util
 import Carquet.Impl.Reader
 import Carquet.Impl.Writer
+import Carquet.Impl.ReaderTable
 /-
 Reader side of the file-level driver ops (used by Driver/Ops/FileWrite for the `r<g>_<c>` fields
 of `wr` lines and by Driver/Ops/FileRead): the model reader run on the bytes the real writer
@@ -68,11 +69,48 @@ def expectedStr (optional : Bool) (e : EChunk) : String :=
   let defs := if e.nrows = 0 then "-" else if optional then String.ofList (e.defs.map (fun d => if d = 1 then '1' else '0')) else "-"
   s!"{e.nrows};{defs};{if e.vals.isEmpty then "-" else ":".intercalate (e.vals.map hexOf)}"
 
+/-! ### the table the REAL reader returned, and the table of the theorem
+
+`C01_roundtrip` (Properties/C01/Roundtrip.lean) says `Reader.readAll (file written) = ok (readerTableOf cols ops)`.
+The run-time tie speaks about the same two functions: the `r<g>_<c>` fields of the line (what the real
+reader returned) are parsed into a `Reader.Table`; the property predicate is "that table is
+`readerTableOf cols ops`", the tie "`Reader.readAll` on the real bytes returns that table" (per mode). -/
+
+/-- one `ret;defs;vals` field as a column of a `Reader.Table` (`none`: an error, an uninitialised
+slot, or a malformed field).  Without a def_levels array (REQUIRED column) every row has level 0. -/
+def parseField (optional : Bool) (s : String) : Option Reader.ColumnData :=
+  match s.splitOn ";" with
+  | [ret, defs, vals] => do
+    let n ← ret.toNat?
+    let ds ← (if n = 0 then some []
+              else if optional then
+                (if defs.length = n ∧ defs.toList.all (fun ch => ch == '0' || ch == '1')
+                 then some (defs.toList.map (fun ch => if ch == '1' then 1 else 0)) else none)
+              else some (List.replicate n 0))
+    let vs ← (if vals == "-" then some [] else (vals.splitOn ":").mapM parseHex)
+    some ⟨ds, vs⟩
+  | _ => none
+
+/-- the table the real reader returned (all row groups must be on the line) -/
+def realTable (ncols : Nat) (optionalOf : Nat → Bool) (fieldOf : Nat → Nat → String) (nrg : Nat) (rows : Int) :
+    Option Reader.Table :=
+  ((List.range nrg).mapM (fun g => (List.range ncols).mapM (fun c => parseField (optionalOf c) (fieldOf g c)))).map
+    (fun gs => ⟨rows, gs⟩)
+
+def readAllIs (mode : Reader.Mode) (file : List UInt8) (t : Reader.Table) : Bool :=
+  match Reader.readAll Reader.Fixes.all noLibs true mode file with
+  | .ok t' => t' == t
+  | .error _ => false
+
 /-- Checks for the read-back part of a `wr` line.
 model checks: the model reader on `file` (fread, and mmap / buffer when the C side says the three
 modes agreed) returns what the real reader returned, for the codecs the model can decompress;
 the open-level numbers for every codec.
-property checks: what the real reader returned is the table the history intends (C01). -/
+property checks: what the real reader returned is the table the history intends (C01) — judged twice:
+against `Writer.readerTableOf cols ops`, the right-hand side of the theorem C01_roundtrip
+(`readback_is_readerTableOf`), and against the independently written rule `intended` of
+harness/ops_file.c (`readback_is_intended_table`).  Tie of the theorem's left-hand side:
+`Reader.readAll` on the real bytes returns the real reader's table (`reader_model_readAll_<mode>`). -/
 def readChecks (cols : List Writer.Col) (codec : Nat) (ops : List Writer.Op) (file : List UInt8) (l : Line) :
     List (String × Bool) × List (String × Bool) :=
   match l.outStr "open" with
@@ -99,6 +137,20 @@ def readChecks (cols : List Writer.Col) (codec : Nat) (ops : List Writer.Op) (fi
           | .ok o' => o'.numRowGroups == o.numRowGroups && o'.md.numRows == o.md.numRows && o'.numColumns == o.numColumns
           | .error _ => false
         let exp := intended cols.length ops
+        -- the theorem's table: what the real reader returned, as a `Reader.Table`, against `readerTableOf`
+        let real := if nrg ≤ 16 then realTable cols.length optionalOf fieldOf nrg rows else none
+        let theoremTable := Writer.readerTableOf cols ops
+        let tableChecks : List (String × Bool) :=
+          if nrg ≤ 16 then [("readback_is_readerTableOf", real == some theoremTable)] else []
+        let readAllChecks : List (String × Bool) :=
+          match real with
+          | some t =>
+            if modelDecompresses codec then
+              [("reader_model_readAll_fread", readAllIs .fread file t)] ++
+              (if modesAgree then [("reader_model_readAll_mmap", readAllIs .mmap file t),
+                                   ("reader_model_readAll_buffer", readAllIs .buffer file t)] else [])
+            else []
+          | none => []
         let propOk := exp.length == nrg &&
           (cells.all (fun gc =>
             match exp[gc.1]? with
@@ -112,8 +164,8 @@ def readChecks (cols : List Writer.Col) (codec : Nat) (ops : List Writer.Op) (fi
          (if modelDecompresses codec then
             [("reader_model_fread", tie .fread)] ++
             (if modesAgree then [("reader_model_mmap", tie .mmap), ("reader_model_buffer", tie .buffer)] else [])
-          else []),
-         [("readback_is_intended_table", propOk)])
+          else []) ++ readAllChecks,
+         [("readback_is_intended_table", propOk)] ++ tableChecks)
     | _, _, _ => ([("wr_read_fields", false)], [])
 
 end Driver.ReadBack
